@@ -210,6 +210,49 @@ def run_unit(unit: dict) -> dict:
                                 d4 = db.dump_index(root)
                                 acc.violation(f"F4 {a_rel} was whitelisted, repaired, and is broken AGAIN: reindex accepted it silently (page rows: {[p_ for p_ in d4.pages if p_['path'] == a_rel]})", fcase, cls="page broken again after repair is accepted silently")
                         acc.sig(("F", r2.rc != 0, r4.rc != 0))
+        # ---- scenario G: a NEW broken page (never indexed) and repeated reindex runs: every run must refuse it
+        shutil.rmtree(root / ".zorg", ignore_errors=True)
+        (root / victim).write_text(good_text)
+        bad_new = _flagged_variant(rng, good_text)
+        if bad_new is not None and db.cli(root, "db", "create").rc == 0:
+            gcase = dict(case, scenario="G")
+            acc.count("scenarioG.runs")
+            newrel = rng.choice(["zz_new_broken.zo", "aa_new_broken.zo", "sub/new_broken.zo"])
+            (root / newrel).parent.mkdir(parents=True, exist_ok=True)
+            # (the copy must not duplicate ZIDs of the indexed page: strip them)
+            import re as _re
+
+            (root / newrel).write_bytes(_re.sub(r"\b\d{6}#[0-9A-Za-z]{2,3}\b ?", "", bad_new).encode("utf-8", "surrogatepass"))
+            c = harness.compile_path(root, Path(newrel))
+            if c.exc is None and c.parser_errors and c.page.has_errors:
+                acc.evaluations += 1
+                acc.judged += 1
+                others = sorted(valid)
+                cmds = [("db", "reindex"), ("db", "reindex"), ("db", "reindex", str(root / newrel)), ("db", "reindex", str(root / others[0]), str(root / newrel)), ("db", "reindex")]
+                for k, cmd in enumerate(cmds):
+                    rg = db.cli(root, *cmd)
+                    dg = db.dump_index(root)
+                    if rg.rc == 0:
+                        acc.violation(f"G run {k + 1} (`{' '.join(cmd[:2])}{' <paths>' if len(cmd) > 2 else ''}`) silently accepted / skipped the never-indexed broken page {newrel} (unchanged since the previous refusal)", gcase, cls="new broken page is refused once and silently skipped afterwards")
+                        break
+                    if [p_ for p_ in dg.pages if p_["path"] == newrel] or [n for n in dg.notes if n["page"] == newrel]:
+                        acc.violation(f"G run {k + 1}: the refused new page {newrel} is in the index", gcase, cls="refused page recorded in the index")
+                        break
+                else:
+                    # repaired => accepted and fully indexed
+                    good_new = _re.sub(r"\b\d{6}#[0-9A-Za-z]{2,3}\b ?", "", good_text)
+                    (root / newrel).write_text(good_new)
+                    cg = harness.compile_path(root, Path(newrel))
+                    if cg.exc is None and not cg.parser_errors:
+                        want = len(cg.page.notes)
+                        rg = db.cli(root, "db", "reindex")
+                        dg = db.dump_index(root)
+                        got = len([n for n in dg.notes if n["page"] == newrel])
+                        if rg.rc != 0:
+                            acc.violation(f"G: reindex after repairing the new page failed rc={rg.rc} {rg.err[-200:]}", gcase, cls="reindex fails after repair")
+                        elif got != want:
+                            acc.violation(f"G: repaired new page {newrel}: {got} notes indexed, {want} compiled", gcase, cls="repaired page not fully indexed")
+                acc.sig(("G", newrel.split("_")[0]))
         acc.sample({"victim": victim, "broken_kind": kind, "bad_text": bad_text[:200]}, cap=2)
     shutil.rmtree(base, ignore_errors=True)
     acc.merge_counts(harness.COUNTERS.take())
